@@ -345,3 +345,72 @@ def auth_script(r, idx, fate_vec=None):
         steps.append({"do": "replay", "dir": "c2s", "nth": 0})
         steps.append({"do": "run", "us": 200000})
     return {"cfg": cfg, "steps": steps, "tag": {"family": "auth-" + fam, "idx": idx}}
+
+
+# ------------------------------------------------------------------------------------------------
+# C05
+
+LIMITS = [0, 1, 63, 64, 65, 1000, 1200, 16383, 16384, 16385, 100000]
+
+
+def flow_script(r, idx, fate_vec=None):
+    cfg = base_cfg(r, server=tcfg_menu(r), client=tcfg_menu(r))
+    for side in ("server", "client"):
+        t = cfg[side]
+        t["idle_ms"] = 20000
+        t.pop("keep_alive_ms", None)
+        if r.random() < 0.6:
+            t["recv_window"] = r.choice(LIMITS[1:])
+        if r.random() < 0.6:
+            t["stream_recv_window"] = r.choice(LIMITS[1:])
+        if r.random() < 0.5:
+            t["send_window"] = r.choice([1, 100, 1200, 5000, 50000])
+        if r.random() < 0.5:
+            t["max_bidi"] = r.choice([0, 1, 2, 3, 100])
+        if r.random() < 0.5:
+            t["max_uni"] = r.choice([0, 1, 2, 3, 100])
+    if fate_vec is not None:
+        half = len(fate_vec) // 2
+        pre = r.choice([2, 4, 6])
+        cfg["fates_c2s"] = ["ok"] * pre + [FATE_MAP[f] for f in fate_vec[:half]]
+        cfg["fates_s2c"] = ["ok"] * pre + [FATE_MAP[f] for f in fate_vec[half:]]
+    else:
+        cfg["fates_c2s"] = fates(r, 24)
+        cfg["fates_s2c"] = fates(r, 24)
+        if r.random() < 0.3:
+            cfg["loss_pct"] = 10
+            cfg["dup_pct"] = 10
+    steps = [{"do": "connect", "n": 1}]
+
+    tiny = any(cfg[x].get(k, 10 ** 9) < 1000 for x in ("server", "client")
+               for k in ("recv_window", "stream_recv_window", "send_window"))
+
+    def wl(n):
+        streams = []
+        for _ in range(r.choice([1, 2, 4, 6])):
+            size = r.choice([1, 63, 64, 65, 130, 300] if tiny else [1, 63, 64, 65, 500, 1200, 3000, 16384, 20000])
+            streams.append({"dir": r.choice([0, 1]), "size": size,
+                            "chunk": r.choice([1, 64, 1000, 1 << 20]) if size <= 3000 else r.choice([1000, 5000, 1 << 20]),
+                            "finish": r.random() < 0.9})
+        return {"do": "app", "n": n, "c": 0, "streams": streams, "read_max": r.choice([100, 1 << 20]),
+                "ordered": True, "maxsize": max(s["size"] for s in streams)}
+
+    steps.append(wl(1))
+    steps.append({"do": "run_until", "what": "connected", "max_us": 20000000})
+    if r.random() < 0.6:
+        steps.append(wl(0))
+    for _ in range(r.choice([0, 1, 2, 4])):
+        steps.append({"do": "run", "us": r.choice([5000, 20000, 50000, 200000])})
+        side = r.choice([0, 1])
+        k = r.random()
+        if k < 0.3:
+            steps.append({"do": "op", "n": side, "c": 0, "op": {"op": "set_send_window", "v": r.choice([0, 1, 100, 1200, 100000])}})
+        elif k < 0.6:
+            steps.append({"do": "op", "n": side, "c": 0, "op": {"op": "set_receive_window", "v": r.choice(LIMITS)}})
+        elif k < 0.85:
+            steps.append({"do": "op", "n": side, "c": 0, "op": {"op": "set_max_streams", "dir": r.choice([0, 1]), "v": r.choice([0, 1, 2, 5, 100])}})
+        else:
+            steps.append({"do": "op", "n": side, "c": 0, "op": {"op": "reset", "id": r.choice([0, 1, 2, 3, 4]), "code": 5}})
+    steps.append({"do": "run_until", "what": "apps", "max_us": 40000000})
+    steps.append({"do": "run", "us": 300000})
+    return {"cfg": cfg, "steps": steps, "tag": {"family": "flow", "idx": idx}}
